@@ -268,6 +268,8 @@ pub struct SimChain {
     pub rpc_count: u64,
     /// RPC calls with index >= this fail with a transport error (until cleared).
     pub rpc_down_from: Option<u64>,
+    /// When set, the outage ends by itself after this many (further) failed RPCs.
+    pub rpc_down_failures_left: Option<u64>,
     pub src_count: u64,
     /// Block source calls with index in [a, b) fail with a transient error.
     pub src_fail: Option<(u64, u64)>,
@@ -309,6 +311,7 @@ impl SimChain {
             rpc_log: Vec::new(),
             rpc_count: 0,
             rpc_down_from: None,
+            rpc_down_failures_left: None,
             src_count: 0,
             src_fail: None,
             src_down: false,
@@ -607,6 +610,14 @@ impl SimChain {
                 verdict: "transport".into(),
                 node_height,
             });
+            if let Some(n) = self.rpc_down_failures_left {
+                if n <= 1 {
+                    self.rpc_down_from = None;
+                    self.rpc_down_failures_left = None;
+                } else {
+                    self.rpc_down_failures_left = Some(n - 1);
+                }
+            }
             return Err(RpcFailure::Transport);
         }
         match method {
@@ -705,6 +716,15 @@ impl SimChain {
                         "No such mempool or blockchain transaction. Use gettransaction for wallet transactions.".into(),
                     )),
                 }
+            }
+            "getblockcount" => {
+                self.rpc_log.push(RpcRecord {
+                    method: method.into(),
+                    txid: None,
+                    verdict: "ok".into(),
+                    node_height,
+                });
+                Ok(json!(node_height))
             }
             other => {
                 self.rpc_log.push(RpcRecord {
